@@ -8,7 +8,6 @@ import (
 
 	"github.com/cloudwego/dynamicgo/conv"
 	"github.com/cloudwego/dynamicgo/conv/j2p"
-	"github.com/cloudwego/dynamicgo/conv/j2t"
 	"github.com/cloudwego/dynamicgo/conv/p2j"
 	"github.com/cloudwego/dynamicgo/conv/t2j"
 	dproto "github.com/cloudwego/dynamicgo/proto"
@@ -44,7 +43,7 @@ func c13Thrift(cs *h.Case, desc *thrift.TypeDescriptor, root *gen.Type, v *tref.
 	cs.Info("opts", fmt.Sprintf("t2j=%+v", o1))
 	ctx := context.Background()
 	tj := t2j.NewBinaryConv(o1)
-	jt := j2t.NewBinaryConv(o2)
+	jt := newJ2T(cs, o2)
 	tr := h.TrapCopy(b, cs.R.Bool(), true)
 	defer tr.Free()
 	j, err := tj.Do(ctx, desc, tr.B)
